@@ -402,7 +402,7 @@ theorem tagOf_addTag_ok {b : View} {l l' : Layer} {id : Id} {tag : Tag}
       have hfid : fv.f.id = id := view_idsOK hb hl ll id fv (by rw [find_view]; exact hv)
       have hcur : layerTag l.feats l.mods b id k = some (AMap.get fv.f.tags k) := by
         rw [← tagOf_view b ll]; simp [tagOf, find_view, hv]
-      by_cases hix : indexedKey tag.1 = true
+      by_cases hix : copyOnAdd fv.f tag.1 = true
       · simp only [hix, ↓reduceIte, Except.ok.injEq] at h
         subst h
         by_cases hid : id' = id
@@ -516,7 +516,7 @@ theorem tagOf_removeTag_ok {b : View} {l l' : Layer} {id : Id} {key : Key}
         · simp [hid]
       | some old =>
         simp only [hg] at h
-        by_cases hix : indexedKey key = true
+        by_cases hix : copyOnRemove fv.f key = true
         · simp only [hix, ↓reduceIte, Except.ok.injEq] at h
           subst h
           by_cases hid : id' = id
